@@ -12,7 +12,7 @@
 
    record:  [cfg: [cs, term, width, record], sty: chunk id -> style id (-1 = not judged),
              text: chunk id -> code points, events]
-   event:   [k, exc, w, tw] + print: [simple, ch: <<[k: "s" | "t" | "c", id]>>] + line: [n]
+   event:   [k, exc, held, w, tw] + print: [simple, ch: <<[k: "s" | "t" | "c", id]>>] + line: [n]
             + end: [toks] + text: [clear, styles, chars, toks] + html: [clear, inline, chars, rule, link] *)
 EXTENDS Record, Json, IOUtils
 
@@ -21,7 +21,8 @@ VARIABLES tid, l, st
 vars == <<tid, l, st>>
 Tr == Traces[tid]
 
-WriteOps == {"print", "log", "rule", "line", "bell", "clear", "cursor", "control"}
+\* "enter" / "exit": a `with console:` block - output is held back until the block ends (then written by "exit")
+WriteOps == {"print", "log", "rule", "line", "bell", "clear", "cursor", "control", "enter", "exit"}
 
 \* ---- what the design writes for the simplest calls (drift only) -------------------------------
 RECURSIVE Join(_, _)
@@ -34,6 +35,8 @@ PP(ch, i, pending) ==
     ELSE IF ch[i].k = "s" THEN PP(ch, i + 1, Append(pending, Tr.text[ch[i].id]))
     ELSE Flush(pending) \o (IF ch[i].k = "t" THEN Tr.text[ch[i].id] \o <<10>> ELSE <<>>) \o PP(ch, i + 1, <<>>)
 Layout(e) ==
+    IF e.held THEN TRUE       \* inside a `with console:` block nothing is written until it ends
+    ELSE
     CASE e.k = "print" /\ e.simple -> Chars(e.tw) = PP(e.ch, 1, <<>>)
       [] e.k = "line" -> Chars(e.tw) = [i \in 1..e.n |-> 10]
       [] e.k \in {"bell", "clear", "cursor", "control"} ->
